@@ -1,5 +1,5 @@
 //@ unit array
-//@ serves C14 C02
+//@ serves C14 C13 C02
 //@ include prelude/header.rs
 use core::cmp;
 verus! {
@@ -56,6 +56,71 @@ impl KStringCow {
         (*a is None && *b is Some) ==> r == Some(cmp::Ordering::Greater),               // [C14:natural_sort_nil_last]
         (*a is Some && *b is None) ==> r == Some(cmp::Ordering::Less),
 //@ end
+
+// ---------------- first / last ----------------
+impl CharIter {
+    #[verifier::external_body]
+    pub fn next(&mut self) -> (r: Option<char>)
+        ensures old(self).rest().len() == 0 ==> r is None,
+                old(self).rest().len() > 0 ==> r == Some(old(self).rest()[0])
+    { unimplemented!() }
+    #[verifier::external_body]
+    pub fn last(self) -> (r: Option<char>)
+        ensures self.rest().len() == 0 ==> r is None,
+                self.rest().len() > 0 ==> r == Some(self.rest()[self.rest().len() - 1])
+    { unimplemented!() }
+}
+
+pub struct FirstFilter;
+pub struct LastFilter;
+impl FirstFilter {
+//@ item crates/lib/src/stdlib/filters/array.rs :: impl Filter for FirstFilter::evaluate
+//@ props C14 C13 C02
+//@ sig fn evaluate(&self, input: &dyn ValueView, _runtime: &dyn Runtime) -> (r: Result<Value>)
+//@ spec
+    ensures
+        // "first/last ... agree with indexing": element 0, nil for an empty array (ArrayView::first is get(0): unit `index`)
+        (input.scalar_of() is None && input.array_of() is Some) ==> (r matches Ok(v) &&
+            v.vid() == (if input.array_of()->0.len() > 0 { input.array_of()->0[0] } else { nil_vid() })),        // [C14:first_is_element_zero_or_nil]
+        // text: a string of the first CHARACTER (its content is `char::to_string`, unspecified by vstd); empty for empty text
+        input.scalar_of() is Some ==> (r matches Ok(v) && v.str_chars() is Some &&
+            (input.scalar_of()->0.text().chars_view().len() == 0 ==> v.str_chars() == Some(Seq::<char>::empty()))),   // [C13:first_of_empty_text_is_empty]
+        (input.scalar_of() is None && input.array_of() is None) ==> r is Err,                                    // [C14:first_rejects_other_kinds]
+//@ closure 0 arg_of=map params=c
+|c: char| -> (s: String)
+//@ closure 1 arg_of=unwrap_or_else params=
+|| -> (s: String) ensures s@ == ""@
+//@ closure 2 arg_of=map params=v
+|v: &dyn ValueView| -> (o: Value) ensures o.vid() == v.vid_of()
+//@ closure 3 arg_of=unwrap_or_else params=
+|| -> (o: Value) ensures o.vid() == nil_vid()
+//@ prologue
+    proof { reveal_strlit(""); }
+//@ end
+}
+impl LastFilter {
+//@ item crates/lib/src/stdlib/filters/array.rs :: impl Filter for LastFilter::evaluate
+//@ props C14 C13 C02
+//@ sig fn evaluate(&self, input: &dyn ValueView, _runtime: &dyn Runtime) -> (r: Result<Value>)
+//@ spec
+    ensures
+        (input.scalar_of() is None && input.array_of() is Some) ==> (r matches Ok(v) &&
+            v.vid() == (if input.array_of()->0.len() > 0 { input.array_of()->0[input.array_of()->0.len() - 1] } else { nil_vid() })),   // [C14:last_is_the_final_element_or_nil]
+        input.scalar_of() is Some ==> (r matches Ok(v) && v.str_chars() is Some &&
+            (input.scalar_of()->0.text().chars_view().len() == 0 ==> v.str_chars() == Some(Seq::<char>::empty()))),   // [C13:last_of_empty_text_is_empty]
+        (input.scalar_of() is None && input.array_of() is None) ==> r is Err,                                    // [C14:last_rejects_other_kinds]
+//@ closure 0 arg_of=map params=c
+|c: char| -> (s: String)
+//@ closure 1 arg_of=unwrap_or_else params=
+|| -> (s: String) ensures s@ == ""@
+//@ closure 2 arg_of=map params=v
+|v: &dyn ValueView| -> (o: Value) ensures o.vid() == v.vid_of()
+//@ closure 3 arg_of=unwrap_or_else params=
+|| -> (o: Value) ensures o.vid() == nil_vid()
+//@ prologue
+    proof { reveal_strlit(""); }
+//@ end
+}
 
 } // verus!
 fn main() {}
